@@ -428,6 +428,37 @@ func init() {
 					}
 				}
 			}
+			// what the process built before is no input of the contract: after a build that registers functions, overrides a
+			// built-in, uses ignore flags and --stub, the failing classes still fail and leave the output path alone
+			w.Case("process-history", func(c *C) {
+				prep := &Cfg{Meta: &Meta{Pkg: P("gen"), Imports: []KV{{"pk", "fx/pk"}}, Functions: []KV{{"upper", "pk.FnStr"}, {"nofn", "pk.FnInt"}, {"env", "pk.FnStr"}}},
+					Params: []Param{{"nope", 1}, {"nope2", 2}, {"u", `%upper("x")%`}}, Services: []Service{{Name: "nope", Constructor: P("pk.New"), Getter: P("GetA")}, {Name: "gone", Constructor: P("pk.New")}}}
+				for _, cl := range classes {
+					if cl.args != nil {
+						continue
+					}
+					for _, pf := range [][]string{nil, {"--ignore-missing-params", "--ignore-missing-services", "--stub"}} {
+						w.FreshDir()
+						os.WriteFile("prep.yaml", []byte(prep.YAML()), 0o644)
+						Tool("1.2.3", "1.2.3 unknown", append([]string{"-i", "prep.yaml", "-o", "prep.go"}, pf...)...)
+						var args []string
+						for _, f := range cl.files() {
+							os.WriteFile(f.Name, []byte(f.Content), 0o644)
+							args = append(args, "-i", f.Name)
+						}
+						r := Tool("1.2.3", "1.2.3 unknown", append(args, "-o", "out.go")...)
+						_, serr := os.Stat("out.go")
+						c.Count("evaluations_extra")
+						c.Distinct("nontrivial", c.ID+cl.id+fmt.Sprint(pf))
+						if cl.valid != (r.Exit == 0) {
+							c.Violation("verdict-depends-on-earlier-builds:"+cl.id, fmt.Sprintf("class %s right after another build %v in the same process: exit %d\n%s", cl.id, pf, r.Exit, tailStr(r.Out, 600)), FilesMap(cl.files()), nil)
+						} else if r.Exit != 0 && serr == nil {
+							c.Violation("failure-writes-output-after-earlier-builds:"+cl.id, "a failing build wrote the output file ("+cl.id+")", FilesMap(cl.files()), nil)
+						}
+					}
+				}
+				c.Distinct("all", c.ID)
+			})
 			// the report cannot be written (stdout is /dev/full, or closed): whatever happens, exit status 0 still means
 			// that the complete file is there
 			for _, cl := range classes[:2] {
